@@ -257,7 +257,9 @@ _ALSO = {
             "character (138 cases) is read as a symbol, as the printer writes such names verbatim; the integer boundary "
             "magnitudes (0, 1, 2^63-1, 2^63, 2^63+1, 2^64-1, both signs) keep their representation when read (shared with C05); "
             "the number printer hands the sink exactly the text itoa / ryu produced, once, on every path; the byte-vector "
-            "reader accepts an element n exactly for 0 <= n <= 255 and stores n (the element ranges over all of u64).", None),
+            "reader accepts an element n exactly for 0 <= n <= 255 and stores n (the element ranges over all of u64); a printed "
+            "float such as 1e-7 or 2.5e21 reaches the float constructor with the exponent it was written with (12 texts, "
+            "shared with C05).", None),
     "C02": ("the empty list is printed as `()` under every printer option value; with the nil-as-false option nil is "
             "written exactly as `false` is under every boolean syntax; with Emacs Lisp bytes syntax each of the 256 byte "
             "values is written as a three-digit octal escape between quotes and the reader's octal decoder yields the same "
@@ -272,7 +274,9 @@ _ALSO = {
     "C03": ("the reader's lookahead byte is discarded only right after a peek that returned a byte (typestate over all "
             "abstract paths, with a fixpoint over functions that start by discarding); helpers the counter logic is split "
             "into (enter/leave style) are summarised by outcome (result variant, delta, tested) and accounted for at each "
-            "call site; a closure handed to a wrapper that takes the level, calls it and gives the level back counts as "
+            "call site (where the counter lives behind a type of its own, or the recursive step is passed on as a function "
+            "value, the charge is established by evaluating every function of the recursive component over all abstract "
+            "paths with a budget of 5 and of 1); a closure handed to a wrapper that takes the level, calls it and gives the level back counts as "
             "charged; slicing the slice reader's input from its cursor is in range because the cursor never passes the end "
             "of the slice (induction over every store to it).",
             "call-graph SCC + dataflow analysis of the depth counter (path-sensitive in Result/Option variants, with helper "
@@ -290,7 +294,10 @@ _ALSO = {
             "boundary literals (u64::MAX, u64::MAX +- 1, 2^64, longest all-max-digit strings, with and without leading "
             "zeros) in radix 2, 8, 10 and 16: the exact value is handed on up to u64::MAX, the long-integer path is "
             "taken above it with a significand that is the value of the digits read minus those its exponent argument counts, "
-            "and no arithmetic overflows on the way (cases, not all literals); the number printer hands the sink "
+            "and no arithmetic overflows on the way (cases, not all literals); a decimal literal with a fraction and / or an "
+            "exponent reaches the float constructor as (significand, exponent) with significand * 10^exponent equal to the "
+            "literal (12 texts: both exponent signs, fraction digits, upper-case E, leading zeros); the radix prefixes #b #o "
+            "#d #x read the literal `10` as 2, 8, 10 and 16 in the lexer and in byte-vector elements; the number printer hands the sink "
             "exactly the text itoa / ryu produced (the shortest text that reads back as the same number), once, on every path.", None),
     "C06": ("when the contents of a list or vector fail to parse, next_value and next_datum return that very error - which "
             "may be the stream's I/O error - whether or not closing the sequence fails as well (4 cases); the error type's "
@@ -329,7 +336,8 @@ _ALSO = {
             "parsers classify the following byte identically (dotted tail vs symbol starting with a dot) for all 256 byte "
             "values and end of input; the hand-written, iterative clone of the span information rebuilds the chain it is given "
             "cell for cell, terminator kind for terminator kind and span for span (10 structural chains); value_iter and "
-            "datum_iter are fused by the same sticky flag on every error return (shared with C12).", None),
+            "datum_iter are fused by the same sticky flag on every error return (shared with C12); list_iter() of the value "
+            "and of the datum API accept the same kinds of value (a pair and the empty list, nothing else).", None),
     "C11": ("for a quote shorthand the end position handed to Datum::quotation is read before the quoted datum is parsed; "
             "reader fields are identified by type and accessors by signature; the stream's line/column counter and the "
             "slice's recount special-case exactly the same byte values (only LF) and advance for each of the others (256 "
@@ -352,7 +360,9 @@ _ALSO = {
             "as the cdr however the index is spelled, `meta[0]` and vector payloads as elements; passing a cdr to a callee "
             "that continues only into its car does not follow the spine; 'nesting depth, which the parser bounds' is checked, "
             "not assumed: every cycle of the parser's call graph is charged to the depth counter, directly or through a "
-            "closure-taking wrapper that charges around the call, and the counter is balanced (shared with C03).", None),
+            "closure-taking wrapper that charges around the call, and the counter is balanced (shared with C03); after the manual "
+            "Drop of a cons cell has run on chains of 2..6 cells, proper and dotted (16 cases), at most two further cells still "
+            "hang off it - the recursive drop glue never sees a long chain, whatever test the impl uses to skip its loop.", None),
     "C15": ("association-list lookup by name and by value, evaluated abstractly over six synthetic lists with concrete "
             "key texts (entries that are not pairs, duplicate keys, the same text under each name kind, a dotted tail, "
             "a non-list): the answer is the cdr of the first entry whose key matches - any name kind with that text "
